@@ -2,12 +2,13 @@
 C45 — property theorems (statements only depend on Model.lean; proofs use Lemmas.lean).
 
 Property: two AD operators built as structurally identical trees over the same leaf data and domains
-have equal keys (and hashes: the hash is `hash(key)`), and operators whose trees or leaf data differ
-(including projections that differ only in the domain size) have different keys.
+have equal keys (and hashes: `__hash__` is `hash(self._key())`), and operators whose trees or leaf data
+differ (including projections that differ only in the domain size) have different keys.
 
-`key Cfg.repaired` is the key as the property demands it; it is what the code builds once the repairs
-`fixes/C45-*.diff` are applied.  The `*_collides` theorems show that each single repair is necessary:
-with any one of them missing (in particular in the pinned code, `Cfg.original`) different trees share a key.
+`key Cfg.repaired` is the lexed key as the property demands it (what the code builds once all repairs
+`fixes/C45-*.diff` are applied); `render` is the key string.  Token level: `key_prefix_code`,
+`key_injective`.  String level: `lex_render` (the decoder reads the tokens back from the string),
+`keyString_injective`.  The `*_collides` theorems show that each single repair is necessary.
 -/
 import PorepyVerif.C45.Lemmas
 
@@ -22,8 +23,8 @@ theorem key_prefix_code (t1 t2 : Tree) (r1 r2 : List Tok)
     (h : key .repaired t1 ++ r1 = key .repaired t2 ++ r2) : t1 = t2 ∧ r1 = r2 :=
   key_prefix t1 t2 r1 r2 h
 
-/-- Headline: different trees (operation, order and number of children, any identifying datum of any leaf)
-    have different keys. -/
+/-- Different trees (operation, order and number of children, any identifying datum of any leaf)
+    have different token keys. -/
 theorem key_injective (t1 t2 : Tree) (h : key .repaired t1 = key .repaired t2) : t1 = t2 := by
   have := key_prefix t1 t2 [] [] (by simpa using h)
   exact this.1
@@ -42,17 +43,62 @@ theorem key_not_proper_prefix (t1 t2 : Tree) (r : List Tok)
 theorem leafKey_injective (l1 l2 : Leaf) (h : leafKey .repaired l1 = leafKey .repaired l2) : l1 = l2 :=
   (leafKey_prefix l1 l2 [] [] (by simpa using h)).1
 
+/-! ### from tokens to the actual strings -/
+
+/-- The decoder reads every well-formed token list back from its string: rendering loses nothing.
+    (`wfList`: values contain none of `,` `)` blank `]`, a value is followed by a delimiter, the member
+    separator by a member.) -/
+theorem lex_render (ts : List Tok) (h : wfList ts = true) : lex (render ts).toList = some ts := by
+  simp [render, lex_renderL ts h]
+
+/-- `render` is injective on well-formed token lists. -/
+theorem render_injective (a b : List Tok) (ha : wfList a = true) (hb : wfList b = true)
+    (h : render a = render b) : a = b := by
+  have : renderL a = renderL b := by simpa [render] using congrArg String.toList h
+  exact renderL_injective a b ha hb this
+
+/-- keys of well-formed trees (names, digests without delimiter characters) are well-formed token lists -/
+theorem key_wellformed (t : Tree) (h : wfTree t = true) : wfList (key .repaired t) = true := wfList_key t h
+
+/-- Headline, string level: well-formed trees with the same key STRING are the same tree. -/
+theorem keyString_injective (t1 t2 : Tree) (h1 : wfTree t1 = true) (h2 : wfTree t2 = true)
+    (h : render (key .repaired t1) = render (key .repaired t2)) : t1 = t2 :=
+  key_injective t1 t2 (render_injective _ _ (wfList_key t1 h1) (wfList_key t2 h2) h)
+
+theorem keyString_eq_iff (t1 t2 : Tree) (h1 : wfTree t1 = true) (h2 : wfTree t2 = true) :
+    render (key .repaired t1) = render (key .repaired t2) ↔ t1 = t2 :=
+  ⟨keyString_injective t1 t2 h1 h2, fun h => by rw [h]⟩
+
+/-! ### hashes: `Operator.__hash__` is `hash(self._key())` -/
+
+/-- the hash of an operator, for any string hash function `H` -/
+def opHash (H : String → UInt64) (c : Cfg) (t : Tree) : UInt64 := H (render (key c t))
+
+/-- equal trees have equal hashes; different hashes mean different key strings -/
+theorem hash_congr (H : String → UInt64) (c : Cfg) (t1 t2 : Tree) (h : t1 = t2) : opHash H c t1 = opHash H c t2 := by
+  rw [h]
+
+theorem key_ne_of_hash_ne (H : String → UInt64) (c : Cfg) (t1 t2 : Tree) (h : opHash H c t1 ≠ opHash H c t2) :
+    render (key c t1) ≠ render (key c t2) := fun he => h (by simp [opHash, he])
+
+/-- apart from collisions of `H` itself, equal hashes mean equal trees -/
+theorem hash_eq_iff (H : String → UInt64) (t1 t2 : Tree) (h1 : wfTree t1 = true) (h2 : wfTree t2 = true)
+    (hH : H (render (key .repaired t1)) = H (render (key .repaired t2)) →
+      render (key .repaired t1) = render (key .repaired t2)) :
+    opHash H .repaired t1 = opHash H .repaired t2 ↔ t1 = t2 :=
+  ⟨fun h => keyString_injective t1 t2 h1 h2 (hH h), hash_congr H _ t1 t2⟩
+
 /-! ### each repair is necessary: collisions of the key with one repair missing
 
 The witnesses are the minimised pairs of `corpus/C45/` (names and digests shortened). -/
 
-private def v (ts it : Int) : Tree := .leaf (.var "p" .subdomains 0 ts it)
-private def pr (dom : String) (domLen dsize : Nat) : Proj := ⟨"r", 3, dom, domLen, dsize, 3, false⟩
+private def v (ts it : Int) : Tree := .leaf (.var cl!"p" .subdomains 0 ts it)
+private def pr (dom : Str) (dsize : Nat) : Proj := ⟨cl!"r", dom, dsize, 3, false⟩
 
 /-- F10(1) projections that differ only in the domain size: `domain_size=` printed the domain indices -/
 theorem domain_size_collides :
     ∃ t1 t2 : Tree, t1 ≠ t2 ∧ key { Cfg.repaired with domSize := false } t1 = key { Cfg.repaired with domSize := false } t2 :=
-  ⟨.leaf (.proj (pr "d" 3 5)), .leaf (.proj (pr "d" 3 7)), by decide, by decide⟩
+  ⟨.leaf (.proj (pr cl!"d" 5)), .leaf (.proj (pr cl!"d" 7)), by decide, by decide⟩
 
 /-- F10(2) numpy abbreviates the string of an array with more than 1000 entries: two index arrays that
     differ in the middle have the same string, hence the same digest token in the unrepaired key -/
@@ -63,13 +109,21 @@ theorem abbreviated_indices_collide :
 /-- F10(3) `exp(p)` and `log(p)`: no function identity in the key -/
 theorem evaluate_function_collides :
     ∃ t1 t2 : Tree, t1 ≠ t2 ∧ key { Cfg.repaired with evalFn := false } t1 = key { Cfg.repaired with evalFn := false } t2 :=
-  ⟨.eval "exp" 1 (.cons (v (-1) (-1)) .nil), .eval "log" 2 (.cons (v (-1) (-1)) .nil), by decide, by decide⟩
+  ⟨.eval cl!"exp" (some 1) (.cons (v (-1) (-1)) .nil), .eval cl!"log" (some 2) (.cons (v (-1) (-1)) .nil),
+   by decide, by decide⟩
+
+/-- … in particular two surrogate operators (`SurrogateOperator` uses the base-class key) with different
+    names and the same dependencies -/
+theorem surrogate_name_collides :
+    ∃ t1 t2 : Tree, t1 ≠ t2 ∧ key { Cfg.repaired with evalFn := false } t1 = key { Cfg.repaired with evalFn := false } t2 :=
+  ⟨.eval cl!"rho" none (.cons (v (-1) (-1)) .nil), .eval cl!"mu" none (.cons (v (-1) (-1)) .nil), by decide, by decide⟩
 
 /-- F10(3b) `f(g(a), b)` and `f(g(a, b))`: no arity in the key, the blank-joined children are ambiguous -/
 theorem evaluate_arity_collides :
     ∃ t1 t2 : Tree, t1 ≠ t2 ∧ key { Cfg.repaired with evalFn := false } t1 = key { Cfg.repaired with evalFn := false } t2 :=
-  ⟨.eval "f" 1 (.cons (.eval "f" 1 (.cons (v (-1) (-1)) .nil)) (.cons (v 0 (-1)) .nil)),
-   .eval "f" 1 (.cons (.eval "f" 1 (.cons (v (-1) (-1)) (.cons (v 0 (-1)) .nil))) .nil), by decide, by decide⟩
+  ⟨.eval cl!"f" (some 1) (.cons (.eval cl!"f" (some 1) (.cons (v (-1) (-1)) .nil)) (.cons (v 0 (-1)) .nil)),
+   .eval cl!"f" (some 1) (.cons (.eval cl!"f" (some 1) (.cons (v (-1) (-1)) (.cons (v 0 (-1)) .nil))) .nil),
+   by decide, by decide⟩
 
 /-- F10(4) `p` and `p.previous_timestep()` / `p.previous_iteration()` -/
 theorem time_index_collides :
@@ -81,17 +135,24 @@ theorem time_index_collides :
 /-- projection lists were keyed by the `repr` of the members (sizes only) -/
 theorem projection_list_collides :
     ∃ t1 t2 : Tree, t1 ≠ t2 ∧ key { Cfg.repaired with plistKeys := false } t1 = key { Cfg.repaired with plistKeys := false } t2 :=
-  ⟨.leaf (.plist [pr "d01" 2 4, pr "d23" 2 4]), .leaf (.plist [pr "d02" 2 4, pr "d13" 2 4]), by decide, by decide⟩
+  ⟨.leaf (.plist [pr cl!"d01" 4, pr cl!"d23" 4]), .leaf (.plist [pr cl!"d02" 4, pr cl!"d13" 4]), by decide, by decide⟩
 
 /-- subdomain 0 and interface 0 (grid ids are unique per grid class only) -/
 theorem domain_type_collides :
     ∃ t1 t2 : Tree, t1 ≠ t2 ∧ key { Cfg.repaired with domType := false } t1 = key { Cfg.repaired with domType := false } t2 :=
-  ⟨.leaf (.tdda "t" .subdomains [0] (-1)), .leaf (.tdda "t" .interfaces [0] (-1)), by decide, by decide⟩
+  ⟨.leaf (.tdda cl!"t" .subdomains [0] (-1)), .leaf (.tdda cl!"t" .interfaces [0] (-1)), by decide, by decide⟩
+
+/-- the same for merged discretization operators (`MergedOperator._key`) -/
+theorem merged_domain_type_collides :
+    ∃ t1 t2 : Tree, t1 ≠ t2 ∧
+      key { Cfg.repaired with mergedDomType := false } t1 = key { Cfg.repaired with mergedDomType := false } t2 :=
+  ⟨.leaf (.merged cl!"D" .subdomains [0] cl!"flux" cl!"flow" none),
+   .leaf (.merged cl!"D" .interfaces [0] cl!"flux" cl!"flow" none), by decide, by decide⟩
 
 /-- dense arrays with the same bytes and different shapes -/
 theorem dense_shape_collides :
     ∃ t1 t2 : Tree, t1 ≠ t2 ∧ key { Cfg.repaired with denseShape := false } t1 = key { Cfg.repaired with denseShape := false } t2 :=
-  ⟨.leaf (.dense [6] "h"), .leaf (.dense [2, 3] "h"), by decide, by decide⟩
+  ⟨.leaf (.dense [6] cl!"h"), .leaf (.dense [2, 3] cl!"h"), by decide, by decide⟩
 
 /-- all of them are collisions of the pinned code -/
 theorem original_not_injective : ¬ ∀ t1 t2 : Tree, key .original t1 = key .original t2 → t1 = t2 := by
@@ -99,19 +160,33 @@ theorem original_not_injective : ¬ ∀ t1 t2 : Tree, key .original t1 = key .or
   have := h (v (-1) (-1)) (v 0 (-1)) (by decide)
   exact absurd this (by decide)
 
+/-- a value with delimiter characters defeats the string (not the tokens): the hypothesis of
+    `keyString_injective` is necessary.  `add (scalar, 1) add (scalar, 2) (scalar, 3)` read in two ways. -/
+theorem delimiter_in_value_collides :
+    ∃ t1 t2 : Tree, t1 ≠ t2 ∧ render (key .repaired t1) = render (key .repaired t2) :=
+  ⟨.bin .add (.leaf (.scalar cl!"1")) (.bin .add (.leaf (.scalar cl!"2")) (.leaf (.scalar cl!"3"))),
+   .bin .add (.leaf (.scalar cl!"1) add (scalar, 2")) (.leaf (.scalar cl!"3")), by decide, by decide +kernel⟩
+
 /-! ### non-vacuity: concrete keys, rendered exactly as the (repaired) code prints them -/
 
-example : render (key .repaired (.bin .mul (.leaf (.scalar 2)) (v 0 (-1)))) =
+example : render (key .repaired (.bin .mul (.leaf (.scalar cl!"2.0")) (v 0 (-1)))) =
     "mul (scalar, 2.0) (var, name=p, domain_type=subdomains, domain=0, time_step_index=0, iterate_index=-1)" := by
   decide +kernel
 
-example : render (key .repaired (.eval "exp" 7 (.cons (v (-1) (-1)) .nil))) =
+example : render (key .repaired (.eval cl!"exp" (some 7) (.cons (v (-1) (-1)) .nil))) =
     "evaluate (function, name=exp, id=7) nargs=1 (var, name=p, domain_type=subdomains, domain=0, time_step_index=-1, iterate_index=-1)" := by
+  decide +kernel
+
+example : wfTree (.bin .mul (.leaf (.scalar cl!"2.0")) (.leaf (.merged cl!"Mpfa" .subdomains [0, 1] cl!"flux" cl!"flow" (some cl!"x")))) = true := by
+  decide
+
+example : lex (renderL (key .repaired (.bin .mul (.leaf (.sparse cl!"csr_matrix" 2 30 cl!"ab")) (.leaf (.plist [pr cl!"d" 4, pr cl!"e" 5]))))) =
+    some (key .repaired (.bin .mul (.leaf (.sparse cl!"csr_matrix" 2 30 cl!"ab")) (.leaf (.plist [pr cl!"d" 4, pr cl!"e" 5])))) := by
   decide +kernel
 
 example : key .repaired (.bin .sub (v (-1) (-1)) (v 0 (-1))) ≠ key .repaired (.bin .sub (v 0 (-1)) (v (-1) (-1))) := by
   decide
 
-example : key .repaired (.leaf (.proj (pr "d" 3 5))) ≠ key .repaired (.leaf (.proj (pr "d" 3 7))) := by decide
+example : key .repaired (.leaf (.proj (pr cl!"d" 5))) ≠ key .repaired (.leaf (.proj (pr cl!"d" 7))) := by decide
 
 end PorepyVerif.C45
